@@ -25,14 +25,19 @@ def _run(cmd: Sequence[str], input: str | None = None, timeout: int = 3600) -> s
 
 
 class _Lock:
-    """serialise lake invocations that write into lean/.lake (several checks may run in parallel)."""
+    """serialise lake invocations that write into lean/.lake (several checks may run in parallel): builds take the
+    lock exclusively, readers of the build products (driver runs, axiom audits, leanchecker) share it, so that no
+    reader sees a half-rebuilt tree."""
+
+    def __init__(self, shared: bool = False):
+        self.shared = shared
 
     def __enter__(self):
         import fcntl
 
         (LEAN_DIR / ".lake").mkdir(exist_ok=True)
-        self.fh = open(LEAN_DIR / ".lake" / "verif.lock", "w")
-        fcntl.flock(self.fh, fcntl.LOCK_EX)
+        self.fh = open(LEAN_DIR / ".lake" / "verif.lock", "a")
+        fcntl.flock(self.fh, fcntl.LOCK_SH if self.shared else fcntl.LOCK_EX)
         return self
 
     def __exit__(self, *a):
@@ -111,7 +116,8 @@ def audit(prop: str, names: Sequence[str], extra_modules: Sequence[str] = ()) ->
         tmp = os.path.join(td, "Audit.lean")
         with open(tmp, "w") as fh:
             fh.write("\n".join(body) + "\n")
-        p = _run(["lake", "env", "lean", tmp])
+        with _Lock(shared=True):
+            p = _run(["lake", "env", "lean", tmp])
     text = (p.stdout or "") + (p.stderr or "")
     res: Dict[str, dict] = {}
     for n in names:
@@ -131,7 +137,8 @@ def audit(prop: str, names: Sequence[str], extra_modules: Sequence[str] = ()) ->
 
 
 def leanchecker(modules: Sequence[str]) -> Tuple[bool, str]:
-    p = _run(["lake", "env", "leanchecker", *modules], timeout=3600)
+    with _Lock(shared=True):
+        p = _run(["lake", "env", "leanchecker", *modules], timeout=3600)
     out = (p.stdout or "") + (p.stderr or "")
     return p.returncode == 0, out[-2000:]
 
@@ -155,7 +162,8 @@ class Model:
             self.out = []
             return self.out
         t0 = time.time()
-        p = _run(["lake", "env", "lean", "--run", "Driver.lean"], input="\n".join(self.lines) + "\n")
+        with _Lock(shared=True):
+            p = _run(["lake", "env", "lean", "--run", "Driver.lean"], input="\n".join(self.lines) + "\n")
         self.wall += time.time() - t0
         if p.returncode != 0:
             raise RuntimeError("model driver failed: " + (p.stderr or p.stdout)[-2000:])
